@@ -16,6 +16,10 @@ IN_EVENTS = ['Claim', 'Release', 'Start', 'Stop', 'get', 'Bye', 'E2', 'ClaimAll'
 OUT_EVENTS = ['Ok', 'Fail', 'Done', 'evt', 'Tick', 'OkDone', 'ev']
 FORMALS = ['a', 'b', 'c', 'val', 'p1', 'aa', 'va']
 PORT_NAMES = ['api', 'aux', 'cord', 'led', 'p', 'q2', 'x', 'ap', 'apix', 'le']
+# user texts that end up in comments: plain, multi-line, blank lines, leading whitespace, texts that already
+# look like a comment on their first line only, block-comment terminators, preprocessor lines
+COPYRIGHTS = ['Copyright (c) me', 'Line 1\nLine 2\n', '', '  x  \n\n y', '// (c) me\nint evil();', '  // x\n#define final',
+              '*/ int z; /*', '//', '/* c */\nstruct S {};', '// a\n// b', 'a\rb\x0cc']
 PREFER_SHORT = False        # spell(): take the shortest uniquely resolving spelling
 
 
@@ -299,9 +303,9 @@ def gen_case(rng, want_mc=None):
            'suffix': rng.choice(['AdvShell', 'Adv', '_s']),
            'encapsulee': info['comp_fqn'], 'ports': ports, 'multiclient': mc,
            'origin': rng.choice(['create', 'import']),
-           'copyright': rng.choice(['Copyright (c) me', 'Line 1\nLine 2\n', '', '  x  \n\n y']),
+           'copyright': rng.choice(COPYRIGHTS),
            'prefix': rng.choice([None, None, ['Pfx'], ['A', 'B'], ['A_B']]),
-           'creator': rng.choice([None, None, 'ABC\nDEF\n', 'tool v1'])}
+           'creator': rng.choice([None, None, 'ABC\nDEF\n', 'tool v1', '// by\ntool();', ''])}
     return {'op': 'build', 'src': strip_private(elems), 'ast': M.enc_root(strip_private(elems)), 'cfg': cfg,
             'expect': 'ok', '_info': info}
 
